@@ -11,7 +11,7 @@ log=$(mktemp /tmp/seedrun.XXXXXX)
 git -C /repo checkout -- .
 nviol=$(grep -c '^VIOLATION' $log)
 echo "== $id $(basename $(dirname $patch)) exit=$rc violations=$nviol"
-grep -E '^VIOLATION|^\[C[0-9]+\] ' $log | head -8
+grep -E "^VIOLATION|^\[C[0-9]+\] " $log | cut -c1-300 | head -8
 # restore evidence + drop replays written by this run
 git checkout -- evidence 2>/dev/null
 git clean -fdq replays 2>/dev/null
